@@ -1,9 +1,10 @@
-(* C17 -- Renaming and copying states preserves behaviour (behavioural half: equivariance of the whole interpreter under order-preserving renamings; the structural half C17_structure is proved in EditProofs).
+(* C17 -- Renaming and copying states preserves behaviour (behavioural half; the structural half C17_structure / C17_internal_stay_internal is in C16_Props.v).
    Property theorems only: every statement below is the statement of a lemma proved in proofs/,
    printed by Coq and closed by `exact`. *)
 From Coq Require Import List ZArith String.
 From Sismic Require Import Base Chart Interp World Spec.
 From SismicProofs Require Import C17Proofs.
+From SismicProofs Require CorollaryProofs.
 Import ListNotations.
 Open Scope string_scope.
 
@@ -103,3 +104,45 @@ Theorem C17_monotonicity_needed_thm :
            closed sc nat nat Example.s0 /\ Example.run (map_chart rho sc) <> Example.image rho (Example.run sc).
 Proof. exact C17_monotonicity_needed. Qed.
 Print Assumptions C17_monotonicity_needed_thm.
+
+(* RENAME_STATE, end to end: for a sound statechart and an order-preserving renaming old -> new (new fresh), the statechart produced by rename_state gives, for every input history from a fresh interpreter, the image of the original run (composition of C17_structure, the equivariance theorem and C07_decl_order: the renamed key moves to the end of the dictionaries) *)
+Theorem C17_rename_run_fresh_thm :
+  forall (c : chart) (old new : string) (c' : chart),
+         CorollaryProofs.E.sound c ->
+         CorollaryProofs.E.fields_ok c ->
+         CorollaryProofs.E.no_empty_name c ->
+         new <> "" ->
+         old <> new ->
+         Edit.rename_state c old new = (c', Edit.EOk) ->
+         (forall a b : name,
+          CorollaryProofs.C17.inN c a ->
+          CorollaryProofs.C17.inN c b ->
+          str_leb (CorollaryProofs.E.ren old new a) (CorollaryProofs.E.ren old new b) = str_leb a b) ->
+         let rho := CorollaryProofs.C17.swap old new in
+         forall (ctx X : Type) (exec : call ctx -> ctx -> option (ctx * list event))
+           (eval : call ctx -> ctx -> option bool) (emit : Z -> meta -> X -> X * option err),
+         (forall (cl : call ctx) (x : ctx), exec (CorollaryProofs.C17.map_call rho cl) x = exec cl x) ->
+         (forall (cl : call ctx) (x : ctx), eval (CorollaryProofs.C17.map_call rho cl) x = eval cl x) ->
+         (forall (t : Z) (m : meta) (x : X),
+          emit t (CorollaryProofs.C17.map_meta rho m) x =
+          (fst (emit t m x), option_map (CorollaryProofs.C17.map_err rho) (snd (emit t m x)))) ->
+         forall (ops : list CorollaryProofs.C7.op) (id : nat) (now : Z) (ignore : bool) (c0 : ctx) (x : X),
+         CorollaryProofs.C7.same_outcome
+           (CorollaryProofs.map_run rho ctx X
+              (CorollaryProofs.C7.run_ops ctx X exec eval emit c ops
+                 {| m_i := init_istate id now ignore c0; m_x := x; m_tr := [] |}))
+           (CorollaryProofs.C7.run_ops ctx X exec eval emit c' ops
+              {| m_i := init_istate id now ignore c0; m_x := x; m_tr := [] |}).
+Proof. exact CorollaryProofs.C17_rename_run_fresh. Qed.
+Print Assumptions C17_rename_run_fresh_thm.
+
+(* the statechart produced by rename_state is, up to declaration order, the image of the original under the renaming; transition list identical to the image *)
+Theorem rename_structure_thm :
+  forall (c : chart) (old new : string) (c' : chart),
+         CorollaryProofs.E.sound c ->
+         CorollaryProofs.E.fields_ok c ->
+         CorollaryProofs.E.no_empty_name c ->
+         new <> "" ->
+         old <> new -> Edit.rename_state c old new = (c', Edit.EOk) -> CorollaryProofs.rename_rel c c' old new.
+Proof. exact CorollaryProofs.rename_structure. Qed.
+Print Assumptions rename_structure_thm.
